@@ -582,7 +582,7 @@ def run_check(tier, seed):
             return V.finish()
         hexe = cc(tree, [os.path.join(VERIF, 'harness/c07_meta.c')], os.path.join(wd, 'c07h'),
                   extra=['-I' + tree + '/src/drivers/ncmpio', '-I' + tree + '/src/drivers/include', '-I' + tree + '/src/include', '-DHAVE_CONFIG_H'])
-        nep, nops = (8, 70) if tier == 'quick' else (60, 160)
+        nep, nops = (24, 80) if tier == 'quick' else (160, 200)
         scripts = []
         cdir = os.path.join(VERIF, 'corpus', PROP)
         if os.path.isdir(cdir):
